@@ -1,10 +1,11 @@
 (* Totality of the modelled Unquote: fuel is always sufficient (each iteration
-   consumes at least one byte), and the specification layer (no int32 wrap in
+   consumes at least one byte), and literal.Unquote (uint32 accumulator for
    \U escapes) never reaches one of Go's panics:
      - unquoteChar(ss, q) on an empty ss in the surrogate-pair path,
      - buf[:len(buf)-1] on an empty buffer,
      - panic(unreachable).
-   The implementation layer does reach panic(unreachable) (Examples.v). *)
+   The int32 regression layer (the code before fix unquote-U) does reach
+   panic(unreachable) (Examples.v). *)
 From Verif Require Import Utf8.Model Utf8.Proofs Lit.Quote Lit.Unquote Lit.Basics.
 From Coq Require Import ZArith Lia ZifyN ZifyNat ZifyBool.
 Ltac Zify.zify_post_hook ::= Z.div_mod_to_equations.
@@ -407,11 +408,18 @@ Proof.
   intro s. destruct (unquote_total false s) as [H1 H2]. split; [now apply H2|exact H1].
 Qed.
 
-(* the implementation layer never runs out of fuel either: its only deviation is the Panic *)
-Theorem unquote_impl_fuel_sufficient : forall s, unquote_impl s <> OutOfFuel.
+(* literal.Unquote never panics and never runs out of fuel, on every input *)
+Theorem unquote_impl_no_panic : forall s, unquote_impl s <> Panic /\ unquote_impl s <> OutOfFuel.
+Proof. exact unquote_spec_no_panic. Qed.
+
+Theorem unquote_impl_eq_spec : forall s, unquote_impl s = unquote_spec s.
+Proof. reflexivity. Qed.
+
+(* the int32 regression layer never runs out of fuel either: its only deviation is the Panic *)
+Theorem unquote_int32_fuel_sufficient : forall s, unquote_int32 s <> OutOfFuel.
 Proof. intro s. exact (proj1 (unquote_total true s)). Qed.
 
-(* ================= implementation layer = specification layer, when ================= *)
+(* ================= int32 regression layer = implementation layer, when ================= *)
 
 (* no byte 'U' is directly followed by a hex digit >= 8: then no \U escape can
    denote a value >= 2^31, the only situation in which Go's int32 wraps *)
@@ -523,9 +531,9 @@ Proof.
   - destruct (negb mb); apply IH; auto.
 Qed.
 
-Theorem unquote_impl_eq_spec_when : forall s, no_big_U s = true -> unquote_impl s = unquote_spec s.
+Theorem unquote_int32_eq_impl_when : forall s, no_big_U s = true -> unquote_int32 s = unquote_impl s.
 Proof.
-  intros s H. unfold unquote_impl, unquote_spec, unquote.
+  intros s H. unfold unquote_int32, unquote_impl, unquote.
   destruct (parse_quotes s s) as [[[q ns] ne]|e| |] eqn:E; [|reflexivity|reflexivity|reflexivity].
   destruct (parse_quotes_ends_ok _ _ _ _ E) as [Hq _].
   unfold qi_unquote.
